@@ -33,7 +33,9 @@ MANIFEST = {
             'translated from lcapy/laplace.py on every run (incl. the sifting branch delta*v and clip_heaviside) equal the specification entries of the inductive relation LPair '
             '(table + linearity, delay, exponential weighting, time scaling, derivative with 0- values, integral, convolution), '
             'and the hand model of LaplaceTransformer.term / UnilateralForwardTransformer.doit is sound for LPair, linear and '
-            'cache-transparent; polynomial factors (sums inside products, distributed by expand) are inside the model.  For products of real '
+            'cache-transparent; all three returns of LaplaceTransformer.integral are modelled (running integral written with the integration '
+            'variable, written as int_0^oo v(t - tau) dtau, convolution; constants inside the integral), its whole body is pinned by the '
+            'translator and integral_returns_gen proves both running-integral forms return c V(s)/s = LPair transform; polynomial factors (sums inside products, distributed by expand) are inside the model.  For products of real '
             'classical factors the denotation is proved to be the pointwise product of the factor functions on t > 0, so the value '
             'the model assigns is the defining integral of that very function (classical_term_is_integral).  The model is tied to the code by evaluating it inside Coq on generated expressions against '
             'what Lcapy returned (values and dispatch events).',
@@ -210,13 +212,18 @@ class Gen:
         if r < 0.8:
             k = self.ch([1, 1, 2, 3])
             return 'named_deriv', 'diff(%s(t), t%s)' % (v, '' if k == 1 else ', %d' % k)
+        # a constant inside the integral is const2 of LaplaceTransformer.integral
+        k2 = self.ch(['', '', '3*', '(1/2)*', '(-2)*', 'a*'])
         if r < 0.9:
-            lo = self.ch(['0', '-oo'])
-            return 'named_integ', 'integrate(%s(tau), (tau, %s, t))' % (v, lo)
+            if self.rng.random() < 0.35:
+                # first return of integral(): the running integral written as int_0^oo v(t - tau) dtau
+                return 'named_integA', 'integrate(%s%s(t - tau), (tau, 0, oo))' % (k2, v)
+            lo = self.ch(['0', '-oo', '-1', '-3/2'])
+            return 'named_integ', 'integrate(%s%s(tau), (tau, %s, t))' % (k2, v, lo)
         h = 'h'
-        form = self.ch(['integrate(%s(tau)*%s(t - tau), (tau, 0, t))', 'integrate(%s(t - tau)*%s(tau), (tau, -oo, oo))',
-                        'integrate(%s(tau)*%s(t - tau), (tau, -oo, t))'])
-        return 'named_conv', form % (v, h)
+        form = self.ch(['integrate(%s%s(tau)*%s(t - tau), (tau, 0, t))', 'integrate(%s%s(t - tau)*%s(tau), (tau, -oo, oo))',
+                        'integrate(%s%s(tau)*%s(t - tau), (tau, -oo, t))'])
+        return 'named_conv', form % (k2, v, h)
 
     def k_sift(self):
         v = self.ch(['v', 'x', 'y'])
@@ -332,6 +339,8 @@ def leaf_coq(f):
         return '(LDeriv (K:=QcIF) %d %d)' % (f[1], f[2])
     if t == 'integ':
         return '(LInteg (K:=QcIF) %d)' % f[1]
+    if t == 'integA':
+        return '(LIntegA (K:=QcIF) %d)' % f[1]
     if t == 'conv':
         return '(LConv (K:=QcIF) %d %d)' % (f[1], f[2])
     raise ValueError(t)
@@ -446,8 +455,8 @@ def explains(name, key):
         return 'undef' in fs and fs <= {'undef', 'exp'}
     if name == 'table_entry_deriv':
         return fs == {'deriv'}
-    if name == 'table_entry_integ':
-        return fs == {'integ'}
+    if name in ('table_entry_integ', 'integral_returns_gen'):
+        return bool(fs) and fs <= {'integ', 'integA'}
     if name == 'table_entry_conv':
         return fs == {'conv'}
     if name == 'table_entry_const':
@@ -601,7 +610,10 @@ def run(tier='quick', replay=None):
             # corpus of past findings, always run first
             for txt in ('tri(2*t)', 'rampstep(t/3)', 'rect(t - 1/4)', 'ramp(t + 1)', 'sin(2*t)*u(t - 1)*u(t - 3)',
                         'diff(delta(2*t - 1), t)', 'v(t)*delta(t - 1)', '3*v(t)*delta(t)', 'v(t)*delta(2*t - 1)',
-                        'diff(delta(t - 1), t)*v(t)', '5*delta(t)', 'cos(t)*delta(t) + t', 'exp(-2*t)*diff(delta(t), t)'):
+                        'diff(delta(t - 1), t)*v(t)', '5*delta(t)', 'cos(t)*delta(t) + t', 'exp(-2*t)*diff(delta(t), t)',
+                        # the three returns of LaplaceTransformer.integral, with a constant inside the integral (const2)
+                        'integrate(v(t - tau), (tau, 0, oo))', '3*integrate(2*v(tau), (tau, -1, t))',
+                        'integrate(a*x(tau)*h(t - tau), (tau, 0, t)) + integrate((1/2)*y(t - tau), (tau, 0, oo))'):
                 cases.insert(0, {'expr': txt, 'zic': False, 'kinds': ['corpus'], 'points': make_points(rng), 'oracle': True})
                 if txt == 'diff(delta(t - 1), t)*v(t)':
                     cases[0]['expect'] = 'error'
